@@ -4,6 +4,7 @@
 pub mod events_ {
 use super::*;
 use vstd::prelude::*;
+use vstd::string::*;
 
 //@extract events::CDataIterator | src/events/mod.rs :: struct CDataIterator | serves=C09
  pub struct CDataIterator<'a> {
